@@ -4,7 +4,9 @@
 //   c01.e2e <sh|mal> <shards> <pad 0|1> <inst> <assign> <records>
 //     inst    : prod  = hybrid_protocol::<_, BA8, BA3, BA32, 3, 256>   (the instantiation of Query::execute)
 //               small = hybrid_protocol::<_, BA8, BA3, BA8, 3, 256>    (narrow output: buckets saturate at 255)
-//     assign  : comma list, shard index of every record ("-" for none)
+//     assign  : comma list, shard index of every record ("-" for none), or `rnd` = the test fixture's
+//               seeded `Random` input distribution (the result does not depend on the distribution)
+//     pad     : 0 = none, 1 = small parameters, 2 = `PaddingParameters::default()` (production)
 //     records : comma list of  i:<mk>:<bk>  (impression)  |  c:<mk>:<v>  (conversion)   ("-" for none)
 //   response: the reconstructed histogram of the leader shard `h0,h1,…`, or `err:<kind>`, `timeout`, `panic:…`.
 use std::sync::Mutex;
@@ -24,7 +26,7 @@ use crate::{
     report::hybrid::{HybridReport, IndistinguishableHybridReport},
     secret_sharing::replicated::semi_honest::AdditiveShare as Replicated,
     test_fixture::{
-        Distribute, Reconstruct, Runner, TestWorld, TestWorldConfig, WithShards,
+        Distribute, RandomInputDistribution, Reconstruct, Runner, TestWorld, TestWorldConfig, WithShards,
         hybrid::TestHybridRecord,
     },
 };
@@ -88,6 +90,21 @@ pub fn small_padding() -> PaddingParameters {
     }
 }
 
+/// TestWorld configuration of every C01 run. Under the compact step table (`--features compact-gate`)
+/// gates can only be narrowed along the compiled step tree, so the world starts at the root of the
+/// hybrid protocol (`ProtocolStep::Hybrid`, where `Query::execute` puts `hybrid_protocol`); with
+/// descriptive gates the fixture's unique per-run gate is used.
+fn c01_config(secs: u64, seed: u64) -> TestWorldConfig {
+    let mut config = TestWorldConfig::default().with_timeout_secs(secs);
+    config.seed = seed;
+    #[cfg(compact_gate)]
+    {
+        use ipa_step::StepNarrow;
+        config.initial_gate = Some(crate::protocol::Gate::default().narrow(&crate::protocol::step::ProtocolStep::Hybrid));
+    }
+    config
+}
+
 fn err_kind(e: &Error) -> String {
     let d = format!("{e:?}");
     let k: String = d.chars().take_while(|c| c.is_alphanumeric() || *c == '_').collect();
@@ -95,13 +112,13 @@ fn err_kind(e: &Error) -> String {
 }
 
 macro_rules! run_inst {
-    ($shards:literal, $seed:expr, $mal:expr, $pad:expr, $records:expr, $BK:ty, $V:ty, $HV:ty, $SS:literal, $B:literal) => {{
+    ($shards:literal, $D:ty, $short:expr, $seed:expr, $mal:expr, $pad:expr, $records:expr, $BK:ty, $V:ty, $HV:ty, $SS:literal, $B:literal) => {{
         let records: Vec<TestHybridRecord> = $records;
         let pad: PaddingParameters = $pad;
-        let secs = if !matches!(pad.oprf_padding, OPRFPadding::NoOPRFPadding) { 240 } else if records.len() <= 8 { 6 } else { 120 };
-        let mut config = TestWorldConfig::default().with_timeout_secs(secs);
-        config.seed = $seed;
-        let world = TestWorld::<WithShards<$shards, Scripted>>::with_shards(config);
+        // a short limit only where the modelled outcome is "never completes" (finding F8: a shard
+        // without rows); everything else gets a limit that a loaded machine cannot reach
+        let secs = if $short { 6 } else if !matches!(pad.oprf_padding, OPRFPadding::NoOPRFPadding) { 280 } else { 200 };
+        let world = TestWorld::<WithShards<$shards, $D>>::with_shards(c01_config(secs, $seed));
         let inputs = records.into_iter();
         let results: Vec<[Result<Vec<Replicated<$HV>>, Error>; 3]> = if $mal {
             world
@@ -153,13 +170,15 @@ macro_rules! run_inst {
 }
 
 macro_rules! by_shards {
-    ($shards:expr, $($rest:tt)*) => {
-        match $shards {
-            1 => run_inst!(1, $($rest)*),
-            2 => run_inst!(2, $($rest)*),
-            3 => run_inst!(3, $($rest)*),
-            5 => run_inst!(5, $($rest)*),
-            n => panic!("harness: unsupported shard count {n}"),
+    ($shards:expr, $rnd:expr, $($rest:tt)*) => {
+        match ($shards, $rnd) {
+            (1, false) => run_inst!(1, Scripted, $($rest)*),
+            (2, false) => run_inst!(2, Scripted, $($rest)*),
+            (3, false) => run_inst!(3, Scripted, $($rest)*),
+            (5, false) => run_inst!(5, Scripted, $($rest)*),
+            (2, true) => run_inst!(2, RandomInputDistribution<17>, $($rest)*),
+            (3, true) => run_inst!(3, RandomInputDistribution<17>, $($rest)*),
+            (n, r) => panic!("harness: unsupported shard count {n} (random distribution: {r})"),
         }
     };
 }
@@ -169,9 +188,7 @@ macro_rules! by_shards {
 fn exec_agg(mal: bool, tags: Vec<u64>, records: Vec<TestHybridRecord>, seed: u64) -> String {
     use crate::{protocol::hybrid::agg::aggregate_reports, report::hybrid::{AggregateableHybridReport, PrfHybridReport}};
     let r = block_on_timeout(120, async move {
-        let mut config = TestWorldConfig::default().with_timeout_secs(60);
-        config.seed = seed;
-        let world = TestWorld::<WithShards<1>>::with_shards(config);
+        let world = TestWorld::<WithShards<1>>::with_shards(c01_config(60, seed));
         macro_rules! body {
             () => {
                 |ctx, input: Vec<HybridReport<BA8, BA3>>| {
@@ -226,9 +243,7 @@ fn exec_brk(mal: bool, hv: u32, rows: Vec<(u32, u32)>, seed: u64) -> String {
         test_fixture::hybrid::TestAggregateableHybridReport,
     };
     let r = block_on_timeout(200, async move {
-        let mut config = TestWorldConfig::default().with_timeout_secs(150);
-        config.seed = seed;
-        let world = TestWorld::<WithShards<1>>::with_shards(config);
+        let world = TestWorld::<WithShards<1>>::with_shards(c01_config(150, seed));
         let inputs = rows.into_iter().map(|(bk, v)| TestAggregateableHybridReport { match_key: (), value: v, breakdown_key: bk });
         macro_rules! run {
             ($HV:ty) => {{
@@ -236,6 +251,8 @@ fn exec_brk(mal: bool, hv: u32, rows: Vec<(u32, u32)>, seed: u64) -> String {
                     () => {
                         |ctx, input: Vec<AggregateableHybridReport<BA8, BA3>>| async move {
                             let pad = PaddingParameters::no_padding();
+                            // as in hybrid_protocol: `ctx.narrow(&Step::Aggregate)`
+                            let ctx = crate::protocol::context::Context::narrow(&ctx, &crate::protocol::hybrid::step::HybridStep::Aggregate);
                             match breakdown_reveal_aggregation::<_, BA8, BA3, $HV, 256>(ctx, input, &pad).await {
                                 Ok(r) => Ok(Vec::<Replicated<$HV>>::transposed_from(&r).unwrap()),
                                 Err(e) => Err(e),
@@ -281,17 +298,20 @@ pub fn exec(req: &str) -> String {
             let mal = t[1] == "mal";
             let shards: usize = t[2].parse().unwrap();
             let pad = if t[3] == "1" { small_padding() } else if t[3] == "2" { PaddingParameters::default() } else { PaddingParameters::no_padding() };
-            let assign: Vec<usize> = parse_nat_list(t[5]);
+            let rnd = t[5] == "rnd";
+            let assign: Vec<usize> = if rnd { vec![] } else { parse_nat_list(t[5]) };
             let records = parse_records(t[6]);
-            assert_eq!(assign.len(), records.len(), "harness: one shard index per record");
+            assert!(rnd || assign.len() == records.len(), "harness: one shard index per record");
+            // finding F8: some shard receives no record although the query is not empty
+            let short = !rnd && shards > 1 && !records.is_empty() && (0..shards).any(|d| !assign.iter().any(|a| a % shards == d));
             *ASSIGN.lock().unwrap_or_else(|e| e.into_inner()) = assign;
             let inst = t[4].to_string();
             // PRSS / input-sharing randomness of the test world derives from the request line
             let seed = req.bytes().fold(0xcbf2_9ce4_8422_2325u64, |h, b| (h ^ u64::from(b)).wrapping_mul(0x0000_0100_0000_01B3));
             let r = block_on_timeout(300, async move {
                 match inst.as_str() {
-                    "prod" => by_shards!(shards, seed, mal, pad, records, BA8, BA3, BA32, 3, 256),
-                    "small" => by_shards!(shards, seed, mal, pad, records, BA8, BA3, BA8, 3, 256),
+                    "prod" => by_shards!(shards, rnd, short, seed, mal, pad, records, BA8, BA3, BA32, 3, 256),
+                    "small" => by_shards!(shards, rnd, short, seed, mal, pad, records, BA8, BA3, BA8, 3, 256),
                     i => panic!("harness: unknown instantiation {i}"),
                 }
             });
@@ -348,11 +368,7 @@ fn assign_str(rng: &mut Rng, n: usize, shards: usize, style: u64) -> String {
     nat_list(&a)
 }
 
-#[test]
-fn verif_c01_stages() {
-    run_suite(
-        "c01_stages",
-        |rng, thorough| {
+pub fn gen_stages(rng: &mut Rng, thorough: bool) -> Vec<String> {
             let mut out = vec![];
             // --- aggregate_reports: pseudonym multiplicities 1,2,3,4; pseudonym order vs arrival order; wrap-around
             out.push("c01.agg sh 5,5 i:1:3,c:1:4".to_string());
@@ -382,16 +398,14 @@ fn verif_c01_stages() {
                 out.push(format!("c01.brk {mode} {} {}", if rng.bool() { 8 } else { 32 }, rows.join(",")));
             }
             out
-        },
-        exec,
-    );
 }
 
 #[test]
-fn verif_c01_e2e() {
-    run_suite(
-        "c01_e2e",
-        |rng, thorough| {
+fn verif_c01_stages() {
+    run_suite("c01_stages", gen_stages, exec);
+}
+
+pub fn gen_e2e(rng: &mut Rng, thorough: bool) -> Vec<String> {
             let mut out = vec![];
             // --- single shard, both modes, no padding: small structured inputs incl. corner multisets
             out.push("c01.e2e sh 1 0 prod - -".to_string());
@@ -422,6 +436,39 @@ fn verif_c01_e2e() {
             // --- known finding F8 witnesses: a shard that enters with no rows (2 shards, everything on shard 0)
             out.push("c01.e2e sh 2 0 prod 0,0,0,0 i:1:2,c:1:3,i:2:2,c:2:4".to_string());
             out.push("c01.e2e mal 2 0 prod 0,0,0,0 i:1:2,c:1:3,i:2:2,c:2:4".to_string());
+            // --- pairs split across shards (the two reports of a match key arrive on DIFFERENT shards and
+            // meet only after resharding by pseudonym); value sums that wrap (7+7 -> 6 in bucket 0);
+            // double impressions whose breakdown keys wrap (200+100); a triple spread over three shards
+            for (mode, shards, pad) in [("sh", 2usize, 0), ("mal", 3, 0), ("mal", 2, 1)] {
+                let mut recs: Vec<(char, u64, u32)> = vec![];
+                let mut assign: Vec<usize> = vec![];
+                for j in 0..(32 * shards) {
+                    let k = 50_000 + 3 * j as u64;
+                    let (a, b) = (j % shards, (j + 1) % shards);
+                    match j % 11 {
+                        3 | 8 => { recs.push(('c', k, 7)); recs.push(('c', k, 7)); assign.push(a); assign.push(b); }
+                        5 => { recs.push(('i', k, 200)); recs.push(('i', k, 100)); assign.push(a); assign.push(b); }
+                        7 => { recs.push(('i', k, 9)); recs.push(('c', k, 1)); recs.push(('c', k, 2)); assign.push(a); assign.push(b); assign.push((j + 2) % shards); }
+                        _ => { recs.push(('i', k, (j as u32 * 37) % 256)); recs.push(('c', k, 1 + (j as u32 % 7))); assign.push(a); assign.push(b); }
+                    }
+                }
+                out.push(format!("c01.e2e {mode} {shards} {pad} prod {} {}", nat_list(&assign), rec_str(&recs)));
+            }
+            // --- the fixture's seeded Random distribution
+            {
+                let recs = gen_records(rng, 70, 256, 8);
+                out.push(format!("c01.e2e mal 2 0 prod rnd {}", rec_str(&recs)));
+            }
+            if thorough {
+                // production padding parameters (`PaddingParameters::default()`), as used by `Query::execute`
+                for (mode, shards) in [("mal", 1usize), ("sh", 2), ("mal", 2)] {
+                    let recs = gen_records(rng, 32 * shards, 256, 8);
+                    let a = assign_str(rng, recs.len(), shards, 0);
+                    out.push(format!("c01.e2e {mode} {shards} 2 prod {a} {}", rec_str(&recs)));
+                }
+                let recs = gen_records(rng, 100, 256, 8);
+                out.push(format!("c01.e2e sh 3 0 small rnd {}", rec_str(&recs)));
+            }
             // --- random structured multisets
             let n_runs = if thorough { 60 } else { 8 };
             for i in 0..n_runs {
@@ -439,7 +486,29 @@ fn verif_c01_e2e() {
                 out.push(format!("c01.e2e {mode} {shards} {pad} {inst} {a} {}", rec_str(&recs)));
             }
             out
-        },
+}
+
+#[test]
+fn verif_c01_e2e() {
+    run_suite("c01_e2e", gen_e2e, exec);
+}
+
+// ---- the same suites under the compact step table (props/C01.json "extra_builds": built with
+// `--no-default-features --features compact-gate,…` and IPA_VERIF_DIR = harness/c01_compact, thorough tier).
+// Distinct suite / test names; the quick-tier request lists are used (a second full build plus ~50
+// protocol runs). The two F8 witnesses are left to the default build (known_findings matches by suite).
+#[cfg(compact_gate)]
+#[test]
+fn verif_c01c_stages() {
+    run_suite("c01c_stages", |rng, _| gen_stages(rng, false), exec);
+}
+
+#[cfg(compact_gate)]
+#[test]
+fn verif_c01c_e2e() {
+    run_suite(
+        "c01c_e2e",
+        |rng, _| gen_e2e(rng, false).into_iter().filter(|l| !l.ends_with(" 2 0 prod 0,0,0,0 i:1:2,c:1:3,i:2:2,c:2:4")).collect(),
         exec,
     );
 }
